@@ -187,7 +187,7 @@ def leg_r_rpc(wd, tier, binary, verdict, mutate=None):
     r = vlib.run_tlc(wd, "MCLimits", "Limits_rpc_edges.cfg", workers=1, timeout=900)
     vlib.tlc_must_pass(r, "Limits RPC edge export")
     states, inits, macro = macro_graph(r.edges)
-    need_ops(r.edges, {"Arrive", "AcquirePeer", "AcquireSubnet", "DropSubnet", "Spawn", "TgAdd", "TgRefuse", "Handle", "HandleDone",
+    need_ops(r.edges, {"Arrive", "AcquirePeer", "AcquireSubnet", "DropSubnet", "Spawn", "TgAdd", "Handle", "HandleDone",
                        "ReleaseSubnet", "ReleasePeer", "LoopExit", "Abandon", "CloseListener", "StopBegin", "StopWait", "StopReturn",
                        "ClosePeers", "RunExit"}, "RPC")
     rng = random.Random(vlib.seed())
@@ -346,7 +346,10 @@ def split_traces(path):
         yield start, cur
 
 
-def validate_file(wd, path, cfg, tag, verdict, max_iter=14):
+SKIPPED = []
+
+
+def validate_file(wd, path, cfg, tag, verdict, max_iter=14, depth=0):
     """TLC-validates one NDJSON file; a rejected run is reported, dropped, and the rest re-validated"""
     events = vlib.count_lines(path)
     if events == 0:
@@ -355,7 +358,24 @@ def validate_file(wd, path, cfg, tag, verdict, max_iter=14):
     for it in range(max_iter):
         if vlib.count_lines(path) == 0:
             break
-        ok, r, consumed = vlib.validate_trace(wd, "LimitsTrace", impl_cfg(wd, cfg), path, timeout=900, tag="%s_%d" % (tag, it))
+        try:
+            ok, r, consumed = vlib.validate_trace(wd, "LimitsTrace", impl_cfg(wd, cfg), path, timeout=300 if depth == 0 else 120, tag="%s_%d" % (tag, it))
+        except vlib.Infra as ex:
+            if "timeout" not in str(ex):
+                raise
+            traces = list(split_traces(path))
+            if depth > 0 or len(traces) == 1:
+                # one recorded run whose hidden-step search is too expensive for TLC: not validated, counted
+                SKIPPED.append(tag)
+                return events, rejected, states, ntr
+            # find the expensive run: validate the runs of this file one by one
+            for k, (_, lines) in enumerate(traces):
+                sub = "%s.part%d" % (path, k)
+                open(sub, "w").write("".join(lines))
+                e2, r2, s2, _ = validate_file(wd, sub, cfg, "%s_p%d" % (tag, k), verdict, max_iter=2, depth=1)
+                rejected += r2; states += s2
+                os.remove(sub)
+            return events, rejected, states, ntr
         states += r.distinct
         if ok:
             break
@@ -392,9 +412,9 @@ def validate_file(wd, path, cfg, tag, verdict, max_iter=14):
 
 
 def leg_t(wd, tier, binary, verdict, race_binary=None):
-    env = {"VERIF_RPC_RUNS": 36 if tier == "quick" else 400, "VERIF_CONN_RUNS": 12 if tier == "quick" else 60,
-           "VERIF_TG_RUNS": 24 if tier == "quick" else 200, "VERIF_WALLET_RUNS": 3 if tier == "quick" else 9,
-           "VERIF_SHARDS": 3 if tier == "quick" else 10, "VERIF_PARALLEL": 6}
+    env = {"VERIF_RPC_RUNS": 30 if tier == "quick" else 400, "VERIF_CONN_RUNS": 8 if tier == "quick" else 60,
+           "VERIF_TG_RUNS": 16 if tier == "quick" else 200, "VERIF_WALLET_RUNS": 3 if tier == "quick" else 9,
+           "VERIF_SHARDS": 2 if tier == "quick" else 10, "VERIF_PARALLEL": 6}
     res = vlib.go_run(binary, "TestDriver", wd, env=env, timeout=1500)
     if res["counts"].get("infra"):
         raise vlib.Infra("driver could not set up %d runs: %s" % (res["counts"]["infra"], res.get("notes")))
@@ -416,7 +436,11 @@ def leg_t(wd, tier, binary, verdict, race_binary=None):
     log("  T: %d recorded runs (%d RPCs sent, %d handlers gated, %d answered, %d refused/dropped) / %d events; TLC validated in %.1fs, %d runs rejected, %d driver-level mismatches"
         % (res["traces"], res["counts"].get("rpcs", 0), res["counts"].get("handlers", 0), res["counts"].get("answered", 0),
            res["counts"].get("failed", 0), res["counts"].get("events", 0), time.time() - t0, tot_rej, len(res["mismatches"])))
-    out = dict(traces=res["traces"], events=res["counts"].get("events", 0), rejected=tot_rej, trace_states=tot_states,
+    if SKIPPED:
+        log("  T: %d recorded runs were too expensive for TLC's hidden-step search and are NOT validated: %s" % (len(SKIPPED), SKIPPED))
+        if len(SKIPPED) > max(1, res["traces"] // 20):
+            raise vlib.Infra("too many recorded runs could not be validated within the TLC budget: %s" % SKIPPED)
+    out = dict(traces=res["traces"] - len(SKIPPED), skipped_expensive=len(SKIPPED), events=res["counts"].get("events", 0), rejected=tot_rej, trace_states=tot_states,
                rpcs=res["counts"].get("rpcs", 0), handlers=res["counts"].get("handlers", 0), samples=res["samples"],
                distinct=res["distinct"], close_stuck_runs=res["counts"].get("close_stuck_runs", 0))
     for f in files:
@@ -480,7 +504,7 @@ def run(tier):
         "replay": {"rpc": {k: rr[k] for k in ("states", "edges", "macro", "paths", "cover_paths", "steps")},
                    "conn": {k: rc_[k] for k in ("states", "edges", "macro", "paths", "cover_paths", "steps", "cap_exceeded", "close_blocked")},
                    "tg": {k: rt[k] for k in ("states", "edges", "macro", "paths", "cover_paths", "steps")}},
-        "trace_validation": {k: tt[k] for k in ("traces", "events", "rejected", "trace_states", "rpcs", "handlers", "storm", "outbound_rounds", "close_stuck_runs")},
+        "trace_validation": {k: tt[k] for k in ("traces", "skipped_expensive", "events", "rejected", "trace_states", "rpcs", "handlers", "storm", "outbound_rounds", "close_stuck_runs")},
         "evaluations": sum(x["steps"] for x in rs) + tt["events"],
         "distinct_nontrivial": sum(x["distinct"] for x in rs) + tt["distinct"],
         "rule": "R: one evaluation per macro step (one environment/gate step + the internal steps up to the next settled state) executed on the real "
@@ -541,7 +565,7 @@ def selftest():
     ok1b = any("joined-after-stop" in m["sig"] or ":state" in m["sig"] for m in v.violations)
     log("selftest 1b (stub thread group that never refuses: replay diverges): %s" % ("ok" if ok1b else "FAILED"))
     # 2: corrupt recorded runs
-    res = vlib.go_run(binary, "TestDriver", wd, env={"VERIF_RPC_RUNS": 12, "VERIF_CONN_RUNS": 0, "VERIF_TG_RUNS": 6, "VERIF_WALLET_RUNS": 1, "VERIF_SHARDS": 1, "VERIF_PARALLEL": 4})
+    res = vlib.go_run(binary, "TestDriver", wd, env={"VERIF_RPC_RUNS": 30, "VERIF_CONN_RUNS": 0, "VERIF_TG_RUNS": 6, "VERIF_WALLET_RUNS": 1, "VERIF_SHARDS": 1, "VERIF_PARALLEL": 4})
     runp = os.path.join(wd, "limtrace-run-0.ndjson"); tgp = os.path.join(wd, "limtrace-tg-0.ndjson")
     good = [list(l) for _, l in split_traces(runp)]
 
@@ -596,7 +620,9 @@ def selftest():
     # 3: named deviations
     for cfg, want in M_DEVS + [("Limits_conn_sweep.cfg", "temporal")]:
         x = vlib.run_tlc(wd, "MCLimits", cfg, workers=4, timeout=600)
+        if x.violated is None and x.error and "Temporal propert" in x.error:
+            x.violated = "temporal"
         good_ = x.exit != 0 and x.violated is not None and (want is None or x.violated == want)
-        log("selftest 3 (%s: deviation breaks %s in TLC): %s" % (cfg, x.violated, "ok" if good_ else "FAILED"))
+        log("selftest 3 (%s: deviation breaks %s in TLC): %s" % (cfg, x.error if x.violated == "temporal" else x.violated, "ok" if good_ else "FAILED"))
         ok &= good_
     return 0 if ok and ok1 and ok1b else 2
